@@ -1,7 +1,48 @@
-/- stub: overwritten by the builder of this engine -/
-import Driver.Common
-open Lean FV FV.Drv
+/-
+Driver for E5 / lexer bases (C14).
 
-def handle (_ : Json) : Except String Json := throw "driver not implemented"
+request  {"op":"run","evs":[E…],"n":k}
+  E = ["tok",ty] | ["opn",ty] | ["cls",ty] | ["nl",[0|1 …],la]      (1 = TAB, la = true|false)
+answer   {"py":[T…],"cpp":[T…],"spec":[T…],"loud":bool}
+  T = "EOF" | "NEWLINE" | "INDENT" | "DEDENT" | ty (a number)
+`k` tokens are pulled from each machine; `spec` is the intended stream (without the trailing EOFs).
+-/
+import Driver.Common
+import Model.LexBase
+import Generated.Lex
+open Lean FV.Drv
+open FV.Lex
+
+def evOf (j : Json) : Except String Ev := do
+  let a ← j.getArr?
+  let tag ← (a[0]?.getD Json.null).getStr?
+  match tag with
+  | "tok" => return .tok (← (a[1]?.getD Json.null).getNat?)
+  | "opn" => return .opn (← (a[1]?.getD Json.null).getNat?)
+  | "cls" => return .cls (← (a[1]?.getD Json.null).getNat?)
+  | "nl" => do
+    let ws ← natArr (a[1]?.getD Json.null)
+    let la ← (a[2]?.getD Json.null).getBool?
+    return .nl (ws.map (· == 1)) la
+  | t => throw s!"bad event {t}"
+
+def jTok : Tok → Json
+  | .eof => "EOF" | .newline => "NEWLINE" | .indent => "INDENT" | .dedent => "DEDENT"
+  | .raw ty => Json.num (JsonNumber.fromNat ty)
+
+def handle (j : Json) : Except String Json := do
+  let op ← j.getObjValAs? String "op"
+  match op with
+  | "run" =>
+    let evs ← (← (← j.getObjVal? "evs").getArr?).toList.mapM evOf
+    let n ← (← j.getObjVal? "n").getNat?
+    return Json.mkObj [
+      ("py", Json.arr ((pyPulls n (pyInit evs)).map jTok).toArray),
+      ("cpp", Json.arr ((cppPullsR FV.Generated.cppRecheck n (cppInit evs)).map jTok).toArray),
+      ("cpp_as_found", Json.arr ((cppPullsR false n (cppInit evs)).map jTok).toArray),
+      ("cpp_fixed", Json.arr ((cppPullsR true n (cppInit evs)).map jTok).toArray),
+      ("spec", Json.arr ((spec evs [] 0).map jTok).toArray),
+      ("loud", Json.bool (loudEnd evs 0))]
+  | _ => throw s!"unknown op {op}"
 
 def main : IO Unit := run handle
